@@ -24,7 +24,7 @@ from gsvc import symrun
 from contracts import krige_common as kc
 from contracts import axioms as ax
 from contracts.krige_common import lemma, quiet, arr, dot, delta, terms
-from contracts.c05 import (MAXP, MAXP_FORK, max_using, drift_using, BND, FN_CALL, FN_MAT, hint_cor0, aniso_iso_lemma, raw_call, not_close, spec_quadform,
+from contracts.c05 import (MAXP, MAXP_FORK, max_using, drift_using, FitEnv, fitted_setup, BND, FN_CALL, FN_MAT, hint_cor0, aniso_iso_lemma, raw_call, not_close, spec_quadform,
                            _rhs_lemmas)
 
 P = "C06"
@@ -84,6 +84,12 @@ def _exact_body(ctx, variant, n, dim, mode, i, norm):
     exact = mode == "exact"
     S = kc.build(ctx, variant, n, dim, err="exact" if exact else "nugget", nugget="pos" if exact else "none",
                  norm=norm, mean="const", trend="callable")
+    _exact_chain(ctx, S, i)
+
+
+def _exact_chain(ctx, S, i):
+    """the lemma chain L1-L5 for target = conditioning point i of the set-up S"""
+    n, dim, exact = S.n, S.dim, S.exact
     m, A, K = S.m, S.A, S.K
     iso = S.model.isometrize(S.cpos)
     W = {}
@@ -168,6 +174,23 @@ def exact_interpolation(ctx, variant, n, dim, mode, i, norm):
 @kc.guarded
 def exact_interpolation3(ctx, variant, n, dim, mode, i, norm):
     _exact_body(ctx, variant, n, dim, mode, i, norm)
+
+
+@contract(P, "Krige(fit_variogram=True).__call__/exact-at-conditioning-points-with-the-FITTED-model",
+          params=[{"variant": v, "start": st, "via": via, "i": i} for v in ("simple", "ordinary") for st in ("iso", "aniso")
+                  for via in ("constructor", "set_condition") for i in (0, 1)],
+          functions=FN_CALL + FN_MAT + ["krige/base.py:Krige.set_condition"], bounded=BND, nsamples=2, search=40, timeout=20,
+          max_paths=MAXP)
+@kc.guarded
+def exact_after_fit(ctx, variant, start, via, i):
+    """exact mode with fit_normalizer / fit_variogram (ghost fits assigning arbitrary in-bounds
+    parameters, anisotropy included): whatever model results, kriging with it reproduces the
+    conditioning values with zero variance (dim 2, 2 points; the same chain L1-L5)"""
+    kc.reset()
+    env = FitEnv(ctx, 2, start)
+    with env:
+        S, narg = fitted_setup(ctx, env, variant, 2, via, "exact")
+    _exact_chain(ctx, S, i)
 
 
 # ---------------------------------------------------------------------------------------
